@@ -20,6 +20,15 @@ Theorem C15_agree_partial : forall E dl t v,
 Proof. exact agree_exact. Qed.
 Print Assumptions C15_agree_partial.
 
+(* the same for a dialect that sets serialize_by_alias and/or omit_none ([opts]): passed with the call on the mixin
+   path, as default_dialect on the codec path; the common result is a success *)
+Theorem C15_agree_o_partial : forall E o t v,
+  no_lookalike_union E t = true -> dialect_compat_o E o = true -> names_ok E = true ->
+  exact E v t = true ->
+  run_pack_o E Mixin o t v = run_pack_o E Codec o t v /\ exists y, run_pack_o E Codec o t v = Ok y.
+Proof. exact agree_exact_o. Qed.
+Print Assumptions C15_agree_o_partial.
+
 (* ... and that common result is a success (conforming values always serialize) *)
 Theorem C15_exact_serializes : forall E dl t v,
   no_lookalike_union E t = true -> dialect_compat E dl = true -> names_ok E = true ->
@@ -28,42 +37,48 @@ Theorem C15_exact_serializes : forall E dl t v,
 Proof. exact exact_serializes. Qed.
 Print Assumptions C15_exact_serializes.
 
-(* composite shape = element codec elementwise, both paths, ALL values (no side condition) *)
-Theorem C15_compositional_list : forall E m dl t l,
-  run_pack E m dl (TList t) (VList l) = fmap VList (mapM (run_pack E m dl t) l).
+(* composite shape = element codec elementwise, both paths, ALL values (no side condition), stated for the
+   general packer with a call-time and a default dialect layer ([pack E m call dflt v t]; run_pack / run_pack_o
+   and the format entry points are instances) *)
+Theorem C15_compositional_list : forall E m call dflt t l,
+  pack E m call dflt (VList l) (TList t) = fmap VList (mapM (fun x => pack E m call dflt x t) l).
 Proof. exact comp_list. Qed.
 Print Assumptions C15_compositional_list.
 
-Theorem C15_compositional_dict : forall E m dl t kvs,
-  run_pack E m dl (TDict t) (VDict kvs) =
-  fmap VDict (mapM (fun kv => fmap (pair (fst kv)) (run_pack E m dl t (snd kv))) kvs).
+Theorem C15_compositional_dict : forall E m call dflt t kvs,
+  pack E m call dflt (VDict kvs) (TDict t) =
+  fmap VDict (mapM (fun kv => fmap (pair (fst kv)) (pack E m call dflt (snd kv) t)) kvs).
 Proof. exact comp_dict. Qed.
 Print Assumptions C15_compositional_dict.
 
-Theorem C15_compositional_tuple : forall E m dl ts l, ts <> [] ->
-  run_pack E m dl (TTuple ts) (VTuple l) = fmap VList (zipM E m dl ts l).
+Theorem C15_compositional_tuple : forall E m call dflt ts l, ts <> [] ->
+  pack E m call dflt (VTuple l) (TTuple ts) = fmap VList (zipM (fun t v => pack E m call dflt v t) ts l).
 Proof. exact comp_tuple. Qed.
 Print Assumptions C15_compositional_tuple.
 
-Theorem C15_compositional_optional : forall E m dl t v,
-  run_pack E m dl (TOpt t) v = match v with VNone => Ok VNone | _ => run_pack E m dl t v end.
+Theorem C15_compositional_optional : forall E m call dflt t v,
+  pack E m call dflt v (TOpt t) = match v with VNone => Ok VNone | _ => pack E m call dflt v t end.
 Proof. exact comp_optional. Qed.
 Print Assumptions C15_compositional_optional.
 
-(* use nested inside another dataclass: the outer to_dict applies the field's codec to the attribute *)
-Theorem C15_compositional_field : forall E m dl o d fs,
+(* use nested inside another dataclass: the outer to_dict applies the field's codec to the attribute; a nullable
+   field that is None is dropped under omit_none *)
+Theorem C15_compositional_field : forall E m call dflt o d fs,
   find_cls E o = Some d ->
-  run_pack E m dl (TData o) (VObj o fs) =
-  fmap VDict (mapM (fun f => match assoc fs (f_name f) with
-                             | None => Err XRaw
-                             | Some x => fmap (pair (key_of m dl d f)) (run_pack E m dl (f_ty f) x)
-                             end) (c_fields d)).
+  pack E m call dflt (VObj o fs) (TData o) =
+  fmap (fun l => VDict (List.concat l))
+    (mapM (fun f => match assoc fs (f_name f) with
+                    | None => Err XRaw
+                    | Some x => if eff_omit_none call dflt d && is_none x && is_opt (f_ty f) then Ok []
+                                else fmap (fun y => [(key_of call dflt d f, y)]) (pack E m call dflt x (f_ty f))
+                    end) (c_fields d)).
 Proof. exact comp_field. Qed.
 Print Assumptions C15_compositional_field.
 
-Theorem C15_compositional_wrapper : forall E m dl w d t x,
+Theorem C15_compositional_wrapper : forall E m call dflt w d t x,
   find_cls E w = Some d -> c_fields d = [mkF "f" None t] ->
-  run_pack E m dl (TData w) (VObj w [("f", x)]) = fmap (fun y => VDict [("f", y)]) (run_pack E m dl t x).
+  eff_omit_none call dflt d && is_none x && is_opt t = false ->
+  pack E m call dflt (VObj w [("f", x)]) (TData w) = fmap (fun y => VDict [("f", y)]) (pack E m call dflt x t).
 Proof. exact comp_wrapper. Qed.
 Print Assumptions C15_compositional_wrapper.
 
@@ -88,6 +103,19 @@ Theorem C15_unpack_compositional_optional : forall E m t v,
 Proof. exact unpack_comp_optional. Qed.
 Print Assumptions C15_unpack_compositional_optional.
 
+(* decoding: mixin from_dict / nested use (Mixin) and BasicDecoder / decode() (Codec) agree on EVERY input - no
+   domain restriction: both dispatch statically; only the class of the "no union member matched" error differs
+   (InvalidFieldValue vs ValueError, [norm]), and for a dataclass shape not even that *)
+Theorem C15_unpack_agree : forall E t d,
+  run_unpack E Mixin t d = norm (run_unpack E Codec t d).
+Proof. intros E t d. exact (unpack_agree_all E d t). Qed.
+Print Assumptions C15_unpack_agree.
+
+Theorem C15_unpack_agree_data : forall E c d,
+  run_unpack E Mixin (TData c) d = run_unpack E Codec (TData c) d.
+Proof. intros E c d. exact (unpack_agree_data E d c). Qed.
+Print Assumptions C15_unpack_agree_data.
+
 (* frame: whatever classes are created (the table is extended: new names, methods gained), any
    path gives on exact values what it gave before *)
 Theorem C15_frame_partial : forall E X m dl t v,
@@ -97,6 +125,14 @@ Theorem C15_frame_partial : forall E X m dl t v,
   run_pack X m dl t v = run_pack E m dl t v.
 Proof. exact frame_exact. Qed.
 Print Assumptions C15_frame_partial.
+
+Theorem C15_frame_o_partial : forall E X m o t v,
+  extends E X ->
+  no_lookalike_union E t = true -> dialect_compat_o E o = true -> names_ok E = true ->
+  exact E v t = true ->
+  run_pack_o X m o t v = run_pack_o E m o t v.
+Proof. exact frame_exact_o. Qed.
+Print Assumptions C15_frame_o_partial.
 
 (* every class creation yields an extension *)
 Theorem C15_frame_creation_extends : forall E d comp, extends E (add_class E d comp).
@@ -165,10 +201,10 @@ Print Assumptions C15_union_order_observable.
 (* --- non-vacuity: the hypotheses of the agreement theorem are met by a non-trivial instance
    (inheritance, alias, Optional, list, a union of two distinguishable dataclasses) ---------- *)
 Definition E_ex : env :=
-  [mkC "A" None [mkF "x" (Some "a_x") TInt] (Some true) true;
-   mkC "B" (Some "A") [mkF "x" (Some "a_x") TInt; mkF "y" None (TOpt TDate)] None true;
-   mkC "C" None [mkF "z" None TStr] None true;
-   mkC "O" None [mkF "u" None (TUnion [TData "B"; TData "C"; TInt]); mkF "l" None (TList (TData "A"))] None true].
+  [mkC "A" None [mkF "x" (Some "a_x") TInt] (Some true) None true;
+   mkC "B" (Some "A") [mkF "x" (Some "a_x") TInt; mkF "y" None (TOpt TDate)] None None true;
+   mkC "C" None [mkF "z" None TStr] None None true;
+   mkC "O" None [mkF "u" None (TUnion [TData "B"; TData "C"; TInt]); mkF "l" None (TList (TData "A"))] None None true].
 Definition v_ex : val :=
   VObj "O" [("u", VObj "C" [("z", VStr "s")]);
             ("l", VList [VObj "A" [("x", VInt 1)]; VObj "A" [("x", VInt 2)]])].
@@ -180,9 +216,25 @@ Example C15_agree_nonvacuous :
     Ok (VDict [("u", VDict [("z", VStr "s")]); ("l", VList [VDict [("a_x", VInt 1)]; VDict [("a_x", VInt 2)]])]).
 Proof. repeat split; reflexivity. Qed.
 
+(* omit_none: Config on one class, the dialect on the others; a None Optional field is dropped where it is effective *)
+Definition E_om : env :=
+  [mkC "A" None [mkF "x" None TInt; mkF "y" None (TOpt TDate)] None (Some false) true;
+   mkC "B" None [mkF "a" None (TData "A"); mkF "z" (Some "a_z") (TOpt TInt)] None None true].
+Example C15_agree_o_nonvacuous :
+  let o := mkO (Some true) (Some true) in
+  let v := VObj "B" [("a", VObj "A" [("x", VInt 1); ("y", VNone)]); ("z", VNone)] in
+  no_lookalike_union E_om (TData "B") = true /\ dialect_compat_o E_om (mkO (Some true) None) = true /\
+  dialect_compat_o E_om o = false /\ exact E_om v (TData "B") = true /\
+  run_pack_o E_om Codec (mkO (Some true) None) (TData "B") v
+    = Ok (VDict [("a", VDict [("x", VInt 1); ("y", VNone)]); ("a_z", VNone)]) /\
+  (* contradicting Config.omit_none=False on A: the call dialect wins on the mixin path, Config on the codec path *)
+  run_pack_o E_om Mixin o (TData "B") v = Ok (VDict [("a", VDict [("x", VInt 1)])]) /\
+  run_pack_o E_om Codec o (TData "B") v = Ok (VDict [("a", VDict [("x", VInt 1); ("y", VNone)])]).
+Proof. repeat split; reflexivity. Qed.
+
 (* the frame theorem's hypothesis is met by a real creation (a subclass that compiles a method onto "C") *)
 Example C15_frame_nonvacuous :
-  let X := add_class E_ex (mkC "S" (Some "O") [mkF "g" None (TData "C")] None true) ["C"] in
+  let X := add_class E_ex (mkC "S" (Some "O") [mkF "g" None (TData "C")] None None true) ["C"] in
   extends E_ex X /\ find_cls X "S" <> None /\
   run_pack X Mixin None (TData "O") v_ex = run_pack E_ex Mixin None (TData "O") v_ex.
 Proof. split; [apply extends_add|split; [discriminate|reflexivity]]. Qed.
